@@ -49,7 +49,7 @@ def shards(tier):
 def twin_battery(fst, root):
     t = fst.FST(root.src, root.a.__class__.__name__ if not isinstance(root.a, ast.Module) else 'exec')
     t.indent = root.indent
-    return B.battery(t)
+    return B.battery(t, reverse=True)  # opposite query order: answers must not depend on earlier read-only queries
 
 
 def check(fst, root, src0, hist, cid, variant, res):
